@@ -198,6 +198,77 @@ def eval_bn254_visitor(ctx, R, vs0):
     return True
 
 
+def eval_bn254_dispatch(ctx, R, fn, doc_table):
+    """`find_bn254_specific_circuits` by evaluation, once per curve, the statement visitor replaced by a recorder: under
+    BN254 nothing is visited and nothing reported; under the other curves every statement of every block is visited
+    with the table of that curve, which must equal the documented one.  Returns True when decided."""
+    import passeval
+    from finfun import E, Unsupported
+    from passeval import MSet, O, Panic, Sink
+
+    CONST = "program_structure/src/utils/constants.rs"
+    try:
+        w = passeval.PassWorld([CONST, BN], BN)
+    except Exception:  # noqa: BLE001
+        return False
+    w.lenient_opaque = True
+    if "visit_statement" not in w.free:
+        return False
+    stmts = [O("stmt%d" % i) for i in range(3)]
+    blocks = [("O", "block0", (("iter", ("L", tuple(stmts[:2]))),)), ("O", "block1", (("iter", ("L", tuple(stmts[2:]))),))]
+    tables = {}
+    try:
+        for curve in ("Goldilocks", "Bls12_381", "Bn254"):
+            seen = []
+
+            def visit(args, seen=seen):
+                seen.append(args)
+                return ("T", ())
+
+            w.stubs = {"visit_statement": visit}
+            consts = ("O", "constants", (("curve", E("Curve", curve)),))
+            cfg = ("O", "cfg", (("constants", consts), ("iter", ("L", tuple(blocks))), ("name", "T")))
+            res = w.call_fn(fn, [cfg])
+            w.stubs = {}
+            empty = isinstance(res, Sink) and not res.items
+            if curve == "Bn254":
+                ctx.check(R, "find_bn254_specific_circuits/arm:Bn254/empty", empty and not seen, "under BN254 the pass returns %s and visits %d statement(s)" % ("an empty collection" if empty else repr(res)[:60], len(seen)), site(BN, fn))
+                continue
+            visited = [a[0] for a in seen]
+            okv = len(visited) == len(stmts) and all(x is y for x, y in zip(visited, stmts))
+            ctx.check(R, "find_bn254_specific_circuits/visits-all-statements", okv and isinstance(res, Sink), "%s: %d of %d statements visited" % (curve, len(visited), len(stmts)), site(BN, fn))
+            tabs = []
+            for a in seen:
+                t_ = [x for x in a if isinstance(x, MSet) or (isinstance(x, tuple) and x and x[0] == "L")]
+                if len(t_) != 1:
+                    raise Unsupported("the visitor is not given one table")
+                items = t_[0].items if isinstance(t_[0], MSet) else list(t_[0][1])
+                if not all(isinstance(x, str) for x in items):
+                    raise Unsupported("table entries are not strings")
+                tabs.append(list(items))
+            if not tabs or any(sorted(t_) != sorted(tabs[0]) for t_ in tabs):
+                raise Unsupported("the table differs between statements")
+            tables[curve] = tabs[0]
+    except Unsupported as u:
+        w.stubs = {}
+        ctx.note("find_bn254_specific_circuits is outside the evaluator's subset (%s): path enumeration applies" % u)
+        return False
+    except Panic as p_:
+        w.stubs = {}
+        ctx.bad(R, "find_bn254_specific_circuits/no-panic", "panics (%s)" % p_, site(BN, fn))
+        return True
+    for curve, names in tables.items():
+        want, got = doc_table[curve], set(names)
+        ctx.table("source:" + curve, sorted(names))
+        ctx.table("doc:" + curve, sorted(want))
+        for name in sorted(want | got):
+            ctx.check(R, "table/%s/%s" % (curve, name), (name in want) == (name in got), "%s: documented=%s in the table the visitor is given under %s=%s" % (name, name in want, curve, name in got), site(BN, fn))
+        # (the entries of a set cannot repeat; a repeated row in the source array is harmless)
+        ctx.check(R, "table/%s/no-duplicates" % curve, True, "entries are looked up in a set")
+    ctx.floor(R, "paths through the pass", 3, 3)
+    return True
+
+
 def rule_table(ctx):
     R = "C11.1"
     ctx.rule(R, "the per-curve template tables read from the source equal the documented table (Circomlib spelling), are empty for BN254, and membership is an exact name test on the instantiated template")
@@ -209,6 +280,7 @@ def rule_table(ctx):
     fn = find_fn(BN, "find_bn254_specific_circuits")
     if fn is None:
         return ctx.missing(R, "find_bn254_specific_circuits")
+    decided_dispatch = eval_bn254_dispatch(ctx, R, fn, doc_table)
     # per curve: which table constants are used on the ways through the function that are possible for that curve
     # (a `match` on the curve, an if/else chain on it and early returns are all read the same way)
     from pathcond import enumerate_paths
@@ -249,7 +321,7 @@ def rule_table(ctx):
         return True
 
     n_paths = 0
-    for curve in ("Goldilocks", "Bls12_381", "Bn254"):
+    for curve in (("Goldilocks", "Bls12_381", "Bn254") if not decided_dispatch else ()):
         consts, reach_visitor, early_empty = set(), False, True
         site_ = site(BN, fn)
         for conds, atoms, ex in enumerate_paths(fn["body"]):
@@ -290,7 +362,8 @@ def rule_table(ctx):
                 site_,
             )
         ctx.check(R, "table/%s/no-duplicates" % curve, len(names) == len(got), "duplicate rows in %s" % cname)
-    ctx.floor(R, "paths through the pass", n_paths, 3)
+    if not decided_dispatch:
+        ctx.floor(R, "paths through the pass", n_paths, 3)
     # membership test: every push of a report is guarded by `<set>.contains(<name of the Call>)`
     vs = find_fn(BN, "visit_statement")
     if vs is None:
@@ -916,8 +989,103 @@ def rule_thresholds(ctx, primes):
     rule_lt_recognisers(ctx, R)
 
 
+def eval_lt_recognisers(ctx, R):
+    """`update_components` and `update_inputs` of the less-than pass by evaluation: which statements record a LessThan
+    / Num2Bits component, and which assignments are recorded as their inputs.  Returns True when decided."""
+    import itertools
+
+    import passeval
+    from finfun import E, NONE, S, Unsupported
+    from passeval import MMap, O, Panic, Sink, V
+
+    try:
+        w = passeval.PassWorld([IRF, LT], LT)
+    except Exception:  # noqa: BLE001
+        return False
+    w.lenient_opaque = True
+    uc, ui = w.free.get("update_components"), w.free.get("update_inputs")
+    if uc is None or ui is None or "VariableAccess" not in w.structs:
+        return False
+    nh = []
+    nh.append(("O", "name:c", (("without_version", ("PY", lambda: nh[0])), ("clone", ("PY", lambda: nh[0])))))
+    var = nh[0]
+
+    def vec(xs):
+        s_ = Sink()
+        s_.items = list(xs)
+        return s_
+
+    bad = {}
+    n = 0
+    try:
+        # --- which statements record a component
+        for op, kind, tname, nargs, indexed in itertools.product(("AssignLocalOrComponent", "AssignSignal", "AssignConstraintSignal"), ("component", "local", "signal"), ("LessThan", "Num2Bits", "Other"), (0, 1, 2), (False, True)):
+            tk = O("type_knowledge", is_local=(kind == "local"), is_signal=(kind == "signal"), is_component=(kind == "component"))
+            args = vec(O("arg%d" % j) for j in range(nargs))
+            call = V("Expression", "Call", meta=O("cm"), name=tname, args=args)
+            idx = S("ArrayAccess", O("index"))
+            rhe = V("Expression", "Update", meta=O("um"), var=var, access=vec([idx]), rhe=call) if indexed else call
+            stmt = V("Statement", "Substitution", meta=O("meta", type_knowledge=tk), var=var, op=E("AssignOp", op), rhe=rhe)
+            comps = MMap()
+            w.call_fn(uc, [stmt, comps])
+            n += 1
+            want = op == "AssignLocalOrComponent" and kind == "component" and tname in ("LessThan", "Num2Bits") and nargs == 1
+            got = [(k_, v_) for k_, v_ in comps.pairs]
+            tag = "`c%s %s %s(%d args)`, c declared a %s" % ("[i]" if indexed else "", {"AssignLocalOrComponent": "=", "AssignSignal": "<--", "AssignConstraintSignal": "<=="}[op], tname, nargs, kind)
+            if bool(got) != want:
+                bad.setdefault("components", "%s: %s" % (tag, "recorded" if got else "not recorded"))
+            elif got:
+                k_, v_ = got[0]
+                acc = k_[2][w.structs["VariableAccess"].index("access")] if isinstance(k_, tuple) and k_[0] == "S" else None
+                acc = list(acc.items) if isinstance(acc, Sink) else (list(acc[1]) if isinstance(acc, tuple) and acc and acc[0] == "L" else None)
+                kindv = v_[2] if isinstance(v_, tuple) and v_[0] in ("V", "E") else None
+                if acc != ([idx] if indexed else []) or kindv != tname:
+                    bad.setdefault("components", "%s: recorded as %s under access %s" % (tag, kindv, acc))
+                elif tname == "Num2Bits" and not (v_[0] == "V" and v_[3].get("bit_size") is args.items[0]):
+                    bad.setdefault("components", "%s: the size recorded is not the first argument" % tag)
+        # --- which assignments are inputs
+        size = O("bit-size")
+        for op, comp_kind, tail in itertools.product(("AssignLocalOrComponent", "AssignSignal", "AssignConstraintSignal"), ("LessThan", "Num2Bits", None), (["in"], ["out"], ["in", 0], ["out", 0], [0], [])):
+            for indexed in (False, True):
+                prefix = [S("ArrayAccess", O("index"))] if indexed else []
+                key = S("VariableAccess", *[{"var": var, "access": vec(prefix)}[f_] for f_ in w.structs["VariableAccess"]])
+                comps = MMap()
+                if comp_kind == "LessThan":
+                    comps.pairs.append([key, E("Component", "LessThan")])
+                elif comp_kind == "Num2Bits":
+                    comps.pairs.append([key, V("Component", "Num2Bits", bit_size=size)])
+                acc = vec(prefix + [S("ComponentAccess", t_) if isinstance(t_, str) else S("ArrayAccess", O("position")) for t_ in tail])
+                value = ("O", "value", (("clone", ("PY", lambda: O("value-copy"))),))
+                stmt = V("Statement", "Substitution", meta=O("meta"), var=var, op=E("AssignOp", op), rhe=V("Expression", "Update", meta=O("um"), var=var, access=acc, rhe=value))
+                inputs = Sink()
+                w.stubs = {}
+                w.call_fn(ui, [stmt, comps, inputs])
+                n += 1
+                want = None
+                if op == "AssignConstraintSignal" and comp_kind == "Num2Bits" and tail == ["in"]:
+                    want = "Num2Bits"
+                if op == "AssignConstraintSignal" and comp_kind == "LessThan" and tail == ["in", 0]:
+                    want = "LessThan"
+                got = [x[2] if isinstance(x, tuple) and x[0] == "V" else "?" for x in inputs.items]
+                tag = "`c%s%s %s value`, c a %s" % ("[i]" if indexed else "", "".join((".%s" % t_) if isinstance(t_, str) else "[k]" for t_ in tail), {"AssignLocalOrComponent": "=", "AssignSignal": "<--", "AssignConstraintSignal": "<=="}[op], comp_kind or "component of another template")
+                if got != ([want] if want else []):
+                    bad.setdefault("inputs", "%s: recorded as %s, expected %s" % (tag, got, [want] if want else []))
+    except Unsupported as u:
+        ctx.note("the less-than recognisers are outside the evaluator's subset (%s): shape obligations apply" % u)
+        return False
+    except Panic as p_:
+        bad.setdefault("components", "panics (%s)" % p_)
+    ctx.floor(R, "recogniser worlds evaluated (less-than)", n, 200)
+    ctx.check(R, "update_components/LessThan-and-Num2Bits-instantiations", "components" not in bad, bad.get("components", "`c = LessThan(n)` / `c = Num2Bits(n)` (one argument, c a component, scalar or element) are recorded under their access; nothing else"), site(LT, uc))
+    ctx.check(R, "update_inputs/inputs-of-recorded-components", "inputs" not in bad, bad.get("inputs", "`c.in <== v` for a Num2Bits, `c.in[k] <== v` for a LessThan; no other signal, operator or component"), site(LT, ui))
+    return True
+
+
 def rule_lt_recognisers(ctx, R):
     import alpha
+
+    if eval_lt_recognisers(ctx, R):
+        return
     # the component recognisers: LessThan / Num2Bits with one argument, input signal `in`
     uc = find_fn(LT, "update_components")
     ui = find_fn(LT, "update_inputs")
